@@ -226,8 +226,18 @@ def sample(cases):
           and not c.model.startswith("DRIVER-ERROR") and term(c) is not None]
     if len(cs) <= SAMPLE:
         return cs
-    step = len(cs) / float(SAMPLE)
-    return [cs[int(i * step)] for i in range(SAMPLE)]
+    # every kind present gets its share (at least 12 cases), evenly spaced within the kind
+    by = {}
+    for c in cs:
+        by.setdefault(c.kind, []).append(c)
+    out = []
+    for k in sorted(by):
+        l = by[k]
+        n = max(12, int(SAMPLE * len(l) / float(len(cs))))
+        n = min(n, len(l), SAMPLE)
+        step = len(l) / float(n)
+        out.extend(l[int(i * step)] for i in range(n))
+    return out
 
 
 def run(prop, cases, log):
